@@ -36,9 +36,16 @@ def main_for(pid, tier, replay=None):
     rng = random.Random(C.seed())
     if replay:
         tr = json.load(open(replay))["trace"]
-        sc = {k: tr[k] for k in ("tn", "td", "naming", "valid", "input", "map", "cls", "haps")}
-        sc["tid"] = 1
-        traces = [R.run_scenario(sc)]
+        if str(tr.get("cls", "")).startswith("cli/"):
+            from harness import cli_engine
+            traces = [cli_engine.cli_remap_case({"root": str(run.sub("cli")), "cfg": tr["cls"][4:], "tid": 1})]
+        elif tr.get("cls") == "specimen":
+            traces = [R.run_specimen({"specimen": tr["msg"], "tid": 1})]
+        else:
+            sc = {k: tr[k] for k in ("tn", "td", "naming", "valid", "input", "map", "cls", "haps")}
+            sc["tid"] = 1
+            sc["style"] = tr.get("style", "plain")
+            traces = [R.run_scenario(sc)]
         jr = R.judge(run, traces, [pid])
         C.finish(run, pid, C.report(run, pid, jr["V"], {1: traces[0]}))
     scen = []
@@ -70,7 +77,7 @@ def main_for(pid, tier, replay=None):
         spec = [{"specimen": n, "tid": len(traces) + 1 + k} for k, n in enumerate(small if tier == "quick" else small)]
         traces += C.pmap("harness.remap_engine", "run_specimen", spec, chunk=1)
     # conservation through the files the command line tool writes (an assembly left out of the written set loses sequence silently)
-    if pid == "C01":
+    if pid in ("C01", "C11"):
         jobs = [{"root": str(run.sub("cli")), "cfg": c, "tid": len(traces) + 1 + k} for k, c in enumerate(("single", "multi", "twohap", "cut", "recurate"))]
         traces += C.pmap("harness.cli_engine", "cli_remap_case", jobs, chunk=1)
     jr = R.judge(run, traces, [pid, "MODEL"])
